@@ -30,6 +30,7 @@ namespace vu::raw
 
    using lua = raw_string< '[', '=', ']' >;
    using custom = raw_string< '(', '*', ')' >;
+   using custom8 = raw_string< '\xab', '\xb7', '\xbb' >;      // 8-bit bracket characters (Latin-1 guillemets and middle dot): negative as char
    using lua_alpha = raw_string< '[', '=', ']', not_one< 'x' > >;        // content restricted by a sub-rule that can also eat bracket characters
    using lua_two = raw_string< '[', '=', ']', one< 'a' >, opt< one< '=' > > >;
 
@@ -39,6 +40,7 @@ namespace vu::raw
       std::size_t ms = 0;
       std::size_t n = m< lua >( in ) + m< custom >( in ) + m< lua_alpha >( in ) + m< lua_two >( in );
       n += m0< lua >( in ) + m0< lua_two >( in );
+      n += m< custom8 >( in );
       n += m< I::raw_string_open< '[', '=' > >( in, ms );
       n += m< I::at_raw_string_close< '=', ']' > >( in, ms );
       n += m< I::raw_string_until< I::at_raw_string_close< '=', ']' > > >( in, ms );
